@@ -81,16 +81,19 @@ class AvroWriter(AbstractWriter):
         self.writer.write(data)
 
     def flush(self):
-        if not self.writer:
-            self.writer = fastavro.write.Writer(
-                self.fp,
-                fastavro.parse_schema({"type": "record", "name": "empty"}),
-                codec=self.codec,
-            )
-        self.writer.flush()
+        if self.writer:
+            self.writer.flush()
 
     def close(self) -> None:
         if self.fp:
+            if not self.writer:
+                # No records were written: leave a valid, empty Avro container. This must not happen in flush(),
+                # a later write() could no longer put the real schema in the file header.
+                self.writer = fastavro.write.Writer(
+                    self.fp,
+                    fastavro.parse_schema({"type": "record", "name": "empty"}),
+                    codec=self.codec,
+                )
             self.flush()
         if self.fp and not is_stdout(self.fp):
             self.fp.close()
